@@ -7,9 +7,11 @@ EXTRACTS = ["Complex"]
 
 # Which variant of the model corresponds to the tree under test.  After a proposed fix has been
 # applied to /repo flip the matching flag to True (see proposed_fixes/C08-*.md):
-#   quot       : struct __Pyx_c_quot follows _Py_c_quot statement by statement  (C08-struct_quot.diff)
-#   from_parts : C99 from_parts assigns __real__/__imag__ instead of x + y*I     (C08-native_from_parts.diff)
-FIX = {"quot": False, "from_parts": False}
+#   quot       : struct __Pyx_c_quot follows _Py_c_quot statement by statement  (C08-struct_quot_reciprocal_rounding.diff)
+#   from_parts : C99 from_parts assigns __real__/__imag__ instead of x + y*I     (C08-c99_from_parts_imag_times_I.diff)
+#   abs        : struct __Pyx_c_abs calls hypot() with CPython >= 3.11 headers     (C08-struct_abs_naive_sqrt.diff)
+#   powtype    : complex ** complex is typed double complex, not soft complex       (C08-pow_runtime_exponent_zero_imag_returns_float.diff)
+FIX = {"quot": False, "from_parts": True, "abs": True, "powtype": True}
 for _k in list(FIX):
     if os.environ.get("C08_FIX_" + _k.upper()):
         FIX[_k] = os.environ["C08_FIX_" + _k.upper()] == "1"
@@ -165,3 +167,475 @@ for job in spec["jobs"]:
         out.append({"error": type(e).__name__ + ": " + str(e)[:300]})
 print(json.dumps(out))
 '''
+
+
+# ----------------------------------------------------------------------------- metadata
+RULE = ("operand pairs: all 9^4 component combinations of the special values (0, -0.0, inf, -inf, nan, 1, -2.5, 1e308, "
+        "-5e-324) for each binary operator, all 81 values for the unary ones and for ** with the constant exponents "
+        "-5..5, plus PRNG operands (random bit patterns, small rationals, moderate magnitudes, subnormal/huge "
+        "divisors, integral and non-integral runtime exponents); each case on two builds of the same module "
+        "(C99 _Complex and -DCYTHON_CCOMPLEX=0); conversions from complex/complex subclass/__complex__/float/int "
+        "objects and back; distinct by (build, function, operands)")
+EXPLANATION = ("theorems: the struct helpers sum/diff/prod/neg/conj/eq are the same operation tree as CPython's "
+               "_Py_c_sum/_Py_c_diff/_Py_c_prod/_Py_c_neg/conjugate/== for every pair of doubles; the DivNode zero test "
+               "raises exactly when CPython's complex_div raises; the repaired __Pyx_c_quot equals _Py_c_quot for every "
+               "operand, the current one is refuted (1/denom rounding, reciprocal overflow, b.imag==0 shortcut) and "
+               "proved equal on the real-divisor class with finite non-zero components; ** with exponents 0..4: "
+               "CPython's c_powi is c_1 * (Cython's product chain) (exact statement per exponent), equal for "
+               "finite non-zero components, refuted otherwise ((-0.0-1j)**1); C99 from_parts (x + y*I) refuted and "
+               "proved exact on its complement class, repaired from_parts and both conversions are identities. "
+               "partial: the C99 build's * / ** abs (compiler/libgcc/libm: Annex G) are only compared; hypot, the "
+               "general branch of pow and negative exponents are compared, not proved; naive abs is modelled with "
+               "SpecFloat sqrt and compared bit for bit.")
+LEVEL_TEXT = ("partial: machine-checked equalities for + - * unary - conjugate == and the zero-division decision over all "
+              "doubles, for the repaired quotient, and the exact relation between c_pow's fast path and c_powi for "
+              "exponents 0..4; the current quotient, from_parts (C99), abs (no HAVE_HYPOT) and ** are refuted with "
+              "witnesses replayed on the compiled code; the native C99 operators and libm are outside the model "
+              "and only compared with CPython, every difference falling into a registered class.")
+TRUSTED = ["Coq.Floats.SpecFloat operations (prec 53, emax 1024; SFsqrt for the naive abs) as the meaning of C double "
+           "+ - * / sqrt and comparisons",
+           "the transcription of CPython 3.12 complexobject.c (_Py_c_quot, c_powu/c_powi, complex_pow dispatch, "
+           "_Py_ADJUST_ERANGE2) in M_Complex.v; it is run against the interpreter on every case",
+           "oracle: CPython 3.12 complex arithmetic in the check process",
+           "gcc/libgcc (__muldc3, __divdc3) and glibc (cpow, cabs, hypot, exp, log, sin, cos, atan2, pow) are not modelled",
+           "Lib/FloatMulOne.v: 1.0 * x = x from Flocq (uses the standard real-number axioms of Coq)"]
+ASSUMPTIONS = ["IEEE-754 binary64 doubles, SSE2 arithmetic, no FMA contraction (x86-64 baseline), gcc without -ffast-math",
+               "(int)x of an out-of-range double gives INT_MIN (x86-64 cvttsd2si; undefined in ISO C)",
+               "sign and payload of a NaN are not compared (NaN-ness is)"]
+
+BUILDS = [("c08n", True, None), ("c08s", False, ["CYTHON_CCOMPLEX=0"])]
+DBL_MIN = 2.2250738585072014e-308
+
+
+def is_fin(x):
+    return x == x and abs(x) != INF
+
+
+def is_fnz(x):
+    return is_fin(x) and x != 0
+
+
+def all_fin(*zs):
+    return all(is_fin(z.real) and is_fin(z.imag) for z in zs)
+
+
+def integral_exp(b):
+    return b.imag == 0 and is_fin(b.real) and b.real == math.floor(b.real) and abs(b.real) <= 100.0
+
+
+def py_eval(nm, a, b=None):
+    """property oracle: CPython's own complex arithmetic"""
+    try:
+        if nm == "add": v = a + b
+        elif nm == "sub": v = a - b
+        elif nm == "mul": v = a * b
+        elif nm in ("div", "divcd"): v = a / b
+        elif nm == "pow": v = a ** b
+        elif nm == "eq": v = (a == b)
+        elif nm == "ne": v = (a != b)
+        elif nm == "neg": v = -a
+        elif nm == "pos": v = +a
+        elif nm == "conj": v = a.conjugate()
+        elif nm == "abs": v = abs(a)
+        else: raise KeyError(nm)
+    except (ZeroDivisionError, OverflowError) as e:
+        return type(e).__name__
+    if isinstance(v, bool):
+        return v
+    if isinstance(v, complex):
+        return chex(v)
+    return fhex(v)
+
+
+def close(g, e, rel=1e-9):
+    """both are [hex, hex] with finite parts and |g - e| <= rel * |e|"""
+    if not (isinstance(g, list) and isinstance(e, list)):
+        return False
+    gz = complex(unhex(g[0]), unhex(g[1])); ez = complex(unhex(e[0]), unhex(e[1]))
+    if not all_fin(gz, ez):
+        return False
+    try:
+        return abs(gz - ez) <= rel * abs(ez) + 5e-324
+    except OverflowError:
+        return abs(gz / 4 - ez / 4) <= rel * abs(ez / 4)
+
+
+def smith_extreme(a, b):
+    """some operand component or intermediate of Smith's method (CPython's order of operations) is outside
+    [2^-969, 2^969] or a product of non-zero factors underflows to zero: the range in which libgcc's __divdc3
+    rescales the operands or reorders the computation"""
+    vals = [a.real, a.imag, b.real, b.imag]
+    bad = [False]
+
+    def mul(x, y):
+        r = x * y
+        if r == 0 and x != 0 and y != 0:
+            bad[0] = True
+        vals.append(r)
+        return r
+
+    def div(x, y):
+        r = x / y if y != 0 else INF
+        if r == 0 and x != 0:
+            bad[0] = True
+        vals.append(r)
+        return r
+    if abs(b.real) >= abs(b.imag):
+        big, small, n1, n2 = b.real, b.imag, (a.real, a.imag), (a.imag, a.real)
+    else:
+        big, small, n1, n2 = b.imag, b.real, (a.imag, a.real), (a.real, a.imag)
+    if big == 0:
+        return False
+    ratio = div(small, big)
+    denom = big + mul(small, ratio)
+    vals.append(denom)
+    for x, y in ((a.real, a.imag), (a.imag, a.real)):
+        t = mul(y, ratio)
+        for n in (x + t, x - t, t - x):
+            vals.append(n)
+            div(n, denom)
+    return bad[0] or any(v != 0 and (abs(v) < 2.0 ** -969 or abs(v) > 2.0 ** 969) for v in vals if v == v)
+
+
+def classify(native, nm, a, b, exp, got):
+    """finding class of a case where the compiled code differs from CPython; from the build, the operator and
+    the operands (and CPython's outcome, a function of the operands); `got` is used only as a tolerance guard
+    for the libm classes"""
+    if nm in ("mul", "div", "divcd"):
+        nonfin = not all_fin(a, b)
+        if native:
+            if nonfin or (isinstance(exp, list) and ("nan" in exp or "inf" in exp or "-inf" in exp)):
+                return "c99_native_mul_div_special_values"
+            if nm != "mul" and smith_extreme(a, b):
+                return "c99_native_div_extreme_range_scaling"
+        elif nm != "mul" and not FIX["quot"]:
+            if b.imag == 0:
+                if not (is_fnz(a.real) and is_fnz(a.imag) and is_fnz(b.real)):
+                    return "struct_quot_real_divisor_shortcut"
+            else:
+                if abs(b.real) >= abs(b.imag):
+                    denom = b.real + b.imag * (b.imag / b.real)
+                elif abs(b.imag) > abs(b.real):
+                    denom = b.imag + b.real * (b.real / b.imag)
+                else:
+                    denom = NAN
+                if denom == denom and denom != 0 and abs(denom) < 2.0 ** -1024:
+                    return "struct_quot_reciprocal_overflow"
+                return "struct_quot_reciprocal_rounding"
+    if nm == "abs":
+        if exp == "OverflowError":
+            return "abs_overflow_returns_inf"
+        if not native and not FIX["abs"]:
+            return "struct_abs_naive_sqrt"
+    if nm == "pow":
+        if exp in ("ZeroDivisionError", "OverflowError"):
+            return "pow_python_raises_c_returns_value"
+        if not all_fin(a, b):
+            return "pow_nonfinite_operand"
+        if a == 0:
+            return "pow_zero_base"
+        ez = complex(unhex(exp[0]), unhex(exp[1]))
+        if not all_fin(ez):
+            return "pow_cpython_result_not_finite"
+        comps = [abs(x) for z in (a, b, ez) for x in (z.real, z.imag) if x != 0]
+        if isinstance(got, list):
+            comps += [abs(unhex(h)) for h in got if h != "nan" and unhex(h) != 0]
+        # tolerance guard for the libm classes: waived for extreme magnitudes and for exponents beyond 64
+        # (phase reduction of huge arguments, overflow of CPython's intermediate pow()/exp())
+        ok = close(got, exp, 1e-9) or any(x < 1e-290 or x > 1e290 for x in comps) or abs(b.real) > 64 or abs(b.imag) > 64
+        if integral_exp(b):
+            n = int(b.real)
+            if native:
+                return "native_cpow_integral_exponent" if ok else "pow_wrong_result"
+            if 1 <= n <= 4:
+                return "struct_pow_small_int_unit_factor_and_order"
+            if -4 <= n <= -1:
+                return "struct_pow_negative_int_naive_reciprocal"
+            if n == 0:
+                return "pow_wrong_result"
+        amax = max(abs(a.real), abs(a.imag))
+        if not native and (amax >= 2.0 ** 511 or amax <= 2.0 ** -511):
+            return "struct_pow_naive_abs_overflow"          # r = sqrt(x*x + y*y) overflows / underflows
+        if not native and a.imag == 0 and math.copysign(1, a.imag) < 0 and a.real < 0:
+            return "struct_pow_negative_real_base_ignores_sign_of_imag_zero"
+        if ok:
+            return "pow_libm_formula"
+    if nm == "conv_in" and native and not FIX["from_parts"]:
+        if not is_fin(a.imag) or (a.real == 0 and math.copysign(1, a.real) < 0):
+            return "c99_from_parts_imag_times_I"
+    return nm + "_wrong_result"
+
+
+def rand_double(rng):
+    k = rng.random()
+    if k < 0.25:
+        return struct.unpack("<d", struct.pack("<Q", rng.getrandbits(64)))[0]
+    if k < 0.5:
+        return rng.choice([-1, 1]) * rng.randrange(0, 1000) / rng.choice([1, 2, 4, 3, 10])
+    if k < 0.8:
+        return rng.choice([-1, 1]) * math.ldexp(rng.random(), rng.randrange(-30, 30))
+    if k < 0.9:
+        return rng.choice([-1, 1]) * math.ldexp(rng.randrange(1, 1 << 53), rng.randrange(-1126, 971))
+    return rng.choice(SPECIALS)
+
+
+def rand_complex(rng):
+    k = rng.random()
+    if k < 0.1:
+        return complex(rand_double(rng), rng.choice([0.0, -0.0]))
+    if k < 0.15:
+        return complex(rng.choice([0.0, -0.0]), rand_double(rng))
+    if k < 0.25:
+        return complex(float(rng.randrange(-9, 10)), float(rng.randrange(-9, 10)))
+    return complex(rand_double(rng), rand_double(rng))
+
+
+def rand_exponent(rng):
+    k = rng.random()
+    if k < 0.5:
+        return complex(float(rng.choice([-5, -4, -3, -2, -1, 0, 1, 2, 3, 4, 5, 7, 10, 100, 101, -100, -7])), rng.choice([0.0, -0.0]))
+    if k < 0.7:
+        return complex(rng.choice([0.5, -0.5, 1.5, 2.5, 0.1, -3.25, 1e-3]), 0.0)
+    if k < 0.85:
+        return complex(rng.randrange(-12, 13) / 4.0, rng.randrange(-12, 13) / 4.0)
+    return rand_complex(rng)
+
+
+def cols_of(zs):
+    return [[fhex(z.real) for z in zs], [fhex(z.imag) for z in zs]]
+
+
+def ctok(z):
+    return tok(z.real) + " " + tok(z.imag)
+
+
+def run(ctx):
+    quick = ctx.tier == "quick"
+    rng = ctx.rng
+    src = gen_source()
+    specs = [dict(name=nm, source=src, workdir=ctx.workdir, macros=mac) for nm, _, mac in BUILDS]
+    built = cybuild.build_many(specs, jobs=2)
+    for (so, err), sp in zip(built, specs):
+        if err is not None:
+            ctx.corr_break("build " + sp["name"], sp["name"], str(err)[:1500], "module builds")
+            return
+    model = ctx.model("complex")
+
+    cs = [complex(r, i) for r in SPECIALS for i in SPECIALS]
+    nsp2 = len(cs) ** 2
+    bpairs = [(a, b) for a in cs for b in cs]
+    nr = 900 if quick else 40000
+    for _ in range(nr):
+        a = rand_complex(rng)
+        k = rng.random()
+        if k < 0.1:
+            b = complex(math.ldexp(rng.random(), -1074 + rng.randrange(0, 60)) * rng.choice([-1, 1]), rand_double(rng) * 0 + rng.choice([0.0, 5e-324, -1e-310, 1e-320]))
+        elif k < 0.15:
+            b = a
+        elif k < 0.2:
+            b = complex(rng.choice([-1, 1]) * math.ldexp(rng.random(), rng.randrange(960, 1024)), rng.choice([-1, 1]) * math.ldexp(rng.random(), rng.randrange(960, 1024)))
+        else:
+            b = rand_complex(rng)
+        bpairs.append((a, b))
+    # ** : special bases x (integral and special exponents), then PRNG
+    pexps = [complex(float(k), z) for k in range(-6, 7) for z in (0.0, -0.0)] + \
+            [complex(x, 0.0) for x in (100.0, -100.0, 101.0, 0.5, -0.5, 2.5, INF, -INF, NAN, 2147483648.0, -2147483648.0, 1e308, 4294967298.0)] + \
+            [complex(0.0, 1.0), complex(2.0, 1.0), complex(-1.0, -0.5), complex(2.0, NAN), complex(0.0, INF), complex(1.0, 5e-324)]
+    ppairs = [(a, b) for a in cs for b in pexps]
+    nspp = len(ppairs)
+    for _ in range(nr // 2):
+        a = rand_complex(rng)
+        if rng.random() < 0.6:
+            a = complex(rng.choice([-1, 1]) * math.ldexp(rng.random() + 0.5, rng.randrange(-8, 8)), rng.choice([-1, 1, 0]) * math.ldexp(rng.random() + 0.5, rng.randrange(-8, 8)))
+        ppairs.append((a, rand_exponent(rng)))
+    uvals = list(cs) + [complex(1.5e308, 1.5e308), complex(-1.7e308, 1e308), complex(3.0, 4.0), complex(1e-320, 1e-322)]
+    uvals += [rand_complex(rng) for _ in range(nr // 3)]
+    nspu = len(cs)
+    objs = [["complex", fhex(z.real), fhex(z.imag)] for z in cs]
+    objs += [[k, fhex(z.real), fhex(z.imag)] for k in ("csub", "hascomplex") for z in (complex(1.5, -0.0), complex(-0.0, 2.0), complex(INF, NAN))]
+    objs += [["float", fhex(x)] for x in (1.5, -0.0, INF, NAN)] + [["hasfloat", fhex(2.5)], ["int", "7"], ["int", "-3"],
+            ["int", str(10 ** 400)], ["str", "1+2j"], ["none"]]
+    for _ in range(nr // 10):
+        z = rand_complex(rng)
+        objs.append(["complex", fhex(z.real), fhex(z.imag)])
+
+    def four(ps):
+        return cols_of([p[0] for p in ps]) + cols_of([p[1] for p in ps])
+
+    jobs = []
+    for mn, native, _ in BUILDS:
+        for nm in ("add", "sub", "mul", "div", "divcd", "eq", "ne"):
+            jobs.append((mn, native, "bin", nm, [mn, "bin_" + nm, "lists", four(bpairs)]))
+        jobs.append((mn, native, "bin", "pow", [mn, "bin_pow", "lists", four(ppairs)]))
+        for nm in ("neg", "conj", "pos", "abs"):
+            jobs.append((mn, native, "un", nm, [mn, "un_" + nm, "lists", cols_of(uvals)]))
+        for k in POWK:
+            jobs.append((mn, native, "powk", k, [mn, "un_pow" + kname(k), "lists", cols_of(uvals)]))
+        jobs.append((mn, native, "conv_in", None, [mn, "conv_in", "objs", objs]))
+        jobs.append((mn, native, "conv_out", None, [mn, "conv_out", "lists", cols_of(uvals)]))
+        opairs = [[chex(a), chex(b)] for a, b in (ppairs[:nspp:7] + ppairs[nspp:nspp + 200])]
+        jobs.append((mn, native, "obj", "pow", [mn, "obj_pow", "each", opairs]))
+    res = cybuild.run_script(WORKER, ctx.workdir, {"jobs": [j[4] for j in jobs]}, timeout=1500)
+    if res["json"] is None or len(res["json"]) != len(jobs):
+        ctx.corr_break("worker", "jobs", (res["rc"], res["err"][-1500:]), "one result list per job")
+        return
+
+    nbreak = {}
+
+    def tie(name, inp, impl, mod):
+        if impl != mod:
+            nbreak[name] = nbreak.get(name, 0) + 1
+            if nbreak[name] <= 5:
+                ctx.corr_break(name, inp, impl, mod)
+
+    pycache = {}
+
+    def pymodel(cmd, ps):
+        """model of CPython's algorithm against the interpreter (validates the specification side)"""
+        if cmd in pycache:
+            return
+        pycache[cmd] = 1
+        out = model.batch(["%s %s" % (cmd, " ".join(ctok(z) for z in p)) for p in ps])
+        nm = {"pysum": "add", "pydiff": "sub", "pyprod": "mul", "pydiv": "div", "pypow": "pow", "pyeq": "eq",
+              "pyneg": "neg", "pyconj": "conj"}[cmd]
+        for p, o in zip(ps, out):
+            if o == "LIBM":
+                continue
+            o = (o == "1") if cmd == "pyeq" else untokc(o)
+            tie("model of CPython %s vs CPython" % cmd, {"op": nm, "args": [chex(z) for z in p]}, py_eval(nm, *p), o)
+
+    for (mn, native, kind, nm, job), r in zip(jobs, res["json"]):
+        if isinstance(r, dict):
+            ctx.corr_break("worker:%s.%s" % (mn, job[1]), job[1], r, "list of results")
+            continue
+        bld = "c99" if native else "struct"
+        if kind == "bin":
+            ps = ppairs if nm == "pow" else bpairs
+            nspec = nspp if nm == "pow" else nsp2
+            mres = None
+            if not native:
+                cmd = {"add": "sum", "sub": "diff", "mul": "prod", "div": "div %d 0" % FIX["quot"],
+                       "divcd": "div %d 1" % FIX["quot"], "eq": "eq", "ne": "eq", "pow": "pow"}[nm]
+                mres = model.batch(["%s %s %s" % (cmd, ctok(a), ctok(b)) for a, b in ps])
+                pc = {"add": "pysum", "sub": "pydiff", "mul": "pyprod", "div": "pydiv", "eq": "pyeq", "pow": "pypow"}.get(nm)
+                if pc:
+                    pymodel(pc, ps)
+            for i, ((a, b), g) in enumerate(zip(ps, r)):
+                inp = {"build": bld, "op": nm, "a": chex(a), "b": chex(b)}
+                ctx.case("%s/%s/%s" % (bld, nm, "special" if i < nspec else "prng"), inp,
+                         sig=(bld, nm, fhex(a.real), fhex(a.imag), fhex(b.real), fhex(b.imag)))
+                if mres is not None and mres[i] != "LIBM":
+                    m = mres[i]
+                    m = ((m == "1") != (nm == "ne")) if nm in ("eq", "ne") else untokc(m)
+                    tie("struct build vs model: " + nm, inp, g, m)
+                if nm == "divcd" and b == 0:
+                    continue          # cdivision=True and a zero divisor: outside the property
+                exp = py_eval(nm, a, b)
+                if g != exp:
+                    ctx.fail(classify(native, nm, a, b, exp, g), inp, g, exp)
+        elif kind == "un":
+            mres = None
+            if not native:
+                cmd = {"neg": "neg", "conj": "conj", "pos": "topy", "abs": "absn"}[nm]
+                mres = model.batch(["%s %s" % (cmd, ctok(a)) for a in uvals])
+                if nm in ("neg", "conj"):
+                    pymodel("py" + nm, [(a,) for a in uvals])
+            for i, (a, g) in enumerate(zip(uvals, r)):
+                inp = {"build": bld, "op": nm, "a": chex(a)}
+                ctx.case("%s/%s/%s" % (bld, nm, "special" if i < nspu else "prng"), inp, sig=(bld, nm, fhex(a.real), fhex(a.imag)))
+                if mres is not None and not (nm == "abs" and FIX["abs"]):     # hypot itself is libm (not modelled)
+                    tie("struct build vs model: " + nm, inp, g, untok(mres[i]) if nm == "abs" else untokc(mres[i]))
+                exp = py_eval(nm, a)
+                if g != exp:
+                    ctx.fail(classify(native, nm, a, None, exp, g), inp, g, exp)
+        elif kind == "powk":
+            b = complex(float(nm), 0.0)
+            mres = None
+            if not native:
+                mres = model.batch(["pow %s %s" % (ctok(a), ctok(b)) for a in uvals])
+                pymodel("pypow", [(a, complex(float(k), 0.0)) for a in uvals for k in POWK])
+            for i, (a, g) in enumerate(zip(uvals, r)):
+                inp = {"build": bld, "op": "pow", "const_exponent": nm, "a": chex(a), "b": chex(b)}
+                ctx.case("%s/pow_const/%s" % (bld, "special" if i < nspu else "prng"), inp, sig=(bld, "powk", nm, fhex(a.real), fhex(a.imag)))
+                if mres is not None and mres[i] != "LIBM":
+                    tie("struct build vs model: pow const", inp, g, untokc(mres[i]))
+                exp = py_eval("pow", a, b)
+                if g != exp:
+                    ctx.fail(classify(native, "pow", a, b, exp, g), inp, g, exp)
+        elif kind == "conv_in":
+            zs = []
+            for d in objs:
+                try:
+                    if d[0] in ("complex", "csub", "hascomplex"):
+                        z = complex(unhex(d[1]), unhex(d[2]))
+                    elif d[0] in ("float", "hasfloat"):
+                        z = complex(unhex(d[1]))
+                    elif d[0] == "int":
+                        z = complex(int(d[1]))
+                    else:
+                        z = "TypeError"
+                except OverflowError:
+                    z = "OverflowError"
+                zs.append(z)
+            mres = iter(model.batch(["frompy %d %d %s" % (native, FIX["from_parts"], ctok(z)) for z in zs if isinstance(z, complex)]))
+            for d, z, g in zip(objs, zs, r):
+                inp = {"build": bld, "op": "conv_in", "obj": d}
+                ctx.case("%s/from_python/%s" % (bld, d[0]), inp, sig=(bld, "conv_in") + tuple(d))
+                exp = z
+                if isinstance(z, complex):
+                    exp = chex(z)
+                    tie("%s build vs model: from_py" % bld, inp, g, untokc(next(mres)))
+                if g != exp:
+                    ctx.fail(classify(native, "conv_in", z, None, exp, g) if isinstance(z, complex) else "conv_in_wrong_result", inp, g, exp)
+        elif kind == "conv_out":
+            mres = model.batch(["topy %s" % ctok(a) for a in uvals])
+            for a, g, m in zip(uvals, r, mres):
+                inp = {"build": bld, "op": "conv_out", "a": chex(a)}
+                ctx.case("%s/to_python" % bld, inp, sig=(bld, "conv_out", fhex(a.real), fhex(a.imag)))
+                tie("%s build vs model: to_py" % bld, inp, g, {"c": untokc(m)})
+                if g != {"c": chex(a)}:
+                    ctx.fail("conv_out_wrong_result", inp, g, {"c": chex(a)})
+        elif kind == "obj":
+            for (pa, pb), g in zip(job[3], r):
+                a = complex(unhex(pa[0]), unhex(pa[1])); b = complex(unhex(pb[0]), unhex(pb[1]))
+                inp = {"build": bld, "op": "obj_pow", "a": pa, "b": pb}
+                ctx.case("%s/object_pow_result_type" % bld, inp, sig=(bld, "obj_pow", tuple(pa), tuple(pb)))
+                # the value is covered by the strata above; here: the result must be a complex object
+                if not isinstance(g, dict) and not (isinstance(g, str) and g.endswith("Error")):
+                    ctx.fail("pow_result_not_complex_object" if FIX["powtype"] else "pow_runtime_exponent_zero_imag_returns_float",
+                             inp, g, "a complex object")
+    ctx.extra.setdefault("exhaustive_domains", []).append(
+        "9^4 special component combinations for + - * / == != (both builds); 81 special values for unary -, "
+        "conjugate, abs, conversions and ** with constant exponents -5..5")
+    for k, v in sorted(nbreak.items()):
+        if v > 5:
+            ctx.note("%s: %d mismatches in total" % (k, v))
+
+
+def replay(ctx, obj):
+    """re-run the single failing input of a replay file on freshly built modules"""
+    inp = obj.get("input") or {}
+    if not isinstance(inp, dict) or "op" not in inp or "a" not in inp:
+        print("replay: no single operand pair recorded; run ./check C08")
+        return
+    src = gen_source()
+    specs = [dict(name=nm, source=src, workdir=ctx.workdir, macros=mac) for nm, _, mac in BUILDS]
+    cybuild.build_many(specs, jobs=2)
+    native = inp.get("build") == "c99"
+    mn = "c08n" if native else "c08s"
+    nm = inp["op"]
+    a = complex(unhex(inp["a"][0]), unhex(inp["a"][1]))
+    b = complex(unhex(inp["b"][0]), unhex(inp["b"][1])) if "b" in inp else None
+    if "const_exponent" in inp:
+        fn, cols = "un_pow" + kname(inp["const_exponent"]), cols_of([a])
+    elif b is not None:
+        fn, cols = "bin_" + nm, cols_of([a]) + cols_of([b])
+    else:
+        fn, cols = "un_" + nm, cols_of([a])
+    res = cybuild.run_script(WORKER, ctx.workdir, {"jobs": [[mn, fn, "lists", cols]]})
+    g = res["json"][0][0] if res["json"] else res["err"][-500:]
+    exp = py_eval(nm, a, b) if b is not None else py_eval(nm, a)
+    print("replay: %s.%s a=%r b=%r -> %r ; CPython: %r" % (mn, fn, a, b, g, exp))
+    ctx.case("replay", inp)
+    if g != exp:
+        ctx.fail(classify(native, nm, a, b, exp, g), inp, g, exp)
